@@ -22,7 +22,9 @@ Tie (DESIGN.md §4.2, §5 C12):
      when range_from +- index does not fit an int; and on 2-D / 3-D arrays and ranges with ASYMMETRIC
      ranges per dimension: two and three levels, every direction combination per level and dimension,
      distinct bounds in every slot of a range vector, reads at every corner and just outside every face,
-     whole-slice read-back -- programs nd_*), write-through-slice/read-through-array, for-in over
+     whole-slice read-back -- programs nd_*; every bound NAME of 1-D, 2-D and 3-D slice and range
+     parameters, ID_DIM_SLICE / VECREF_VEC_DEREF, used directly and from a closure -- program dim_names),
+     write-through-slice/read-through-array, for-in over
      ranges and slices, string index, string slice, element-wise add/sub and matrix product with
      conforming and non-conforming shapes, MK_ARRAY and the matrix product with extents whose product
      does not fit unsigned int (kind `extent-product-overflow`, finding fixed by 1f9996a: wrong_array_size
@@ -34,7 +36,8 @@ Property oracle (python, independent of the Coq model): arrays are literals hold
 flat position p, so an in-range tuple must read 1000 + sum_k i_k*prod_{j>k} n_j computed here;
 anything else must be the index_out_of_bounds clause and no sanitizer report; ranges denote
 a, a+-1, .., b; [a..b][c..d] must lie inside [a..b] or raise; slices alias; s[i] exists iff
-0 <= i < len; shapes must conform or wrong_array_size is raised.
+0 <= i < len, for strings of length 0 (literal, concatenation result), 1 and more; shapes must conform or
+wrong_array_size is raised.
    real code != oracle -> ctx.violation(key = "<class>:<kind of input>")
    real code != model  -> ctx.correspondence_broken
 """
@@ -1058,6 +1061,101 @@ def gen_programs(ctx):
                    "print(it3r(%s))" % args(flat_levels(lv3)),
                    [str(rnth(lv3[0][0][0], lv3[0][0][1], rnth(lv3[1][0][0], lv3[1][0][1], rnth(lv3[2][0][0], lv3[2][0][1], k))))
                     for k in range(ln3)] + ["0"]))
+    progs.append(p)
+
+    # ---- strings of length 0 and 1 (seed C12-14: `strlen(str) - 1` underflows for the empty string) ------------
+    sx = [('""', ""), ('"" + ""', ""), ('("" + "") + ""', ""), ('"a"', "a"), ('"" + "b"', "b"), ('"xyz"[1 .. 1]', "y"),
+          ('"pq"', "pq"), ('"pq"[1 .. 0]', "qp")]
+    p = Program("str_short", "func at(s : string, i : int) -> int\n{\n    ord(s[i])\n}\n" + CATCH +
+                "func sl(s : string, a : int, b : int) -> int\n{\n    let t = s[a .. b];\n    prints(t + \"\\n\");\n"
+                "    length(t)\n}\n" + CATCH + "func len(s : string) -> int\n{\n    length(s)\n}\n" + CATCH)
+    for expr, w in sx:
+        wchars = " ".join(str(ord(ch)) for ch in w)
+        p.add(Call("string_deref", "length", "length(%s)" % expr, "print(len(%s))" % expr, [str(len(w))]))
+        for i in (0, 1, 2, -1, len(w) - 1, len(w), INT_MAX, INT_MIN):
+            ok = 0 <= i < len(w)
+            kind = ("empty-string" if not w else "one-char-string" if len(w) == 1 else "short-string") + ":" + kind_of_index([len(w)], [i])
+
+            def smap(ans, w=w):
+                t = ans.split()
+                if t[0] != "ok":
+                    return [E_OOB]
+                return [str(ord(w[int(t[1])]))] if 0 <= int(t[1]) < len(w) else ("foreign",)
+            p.add(Call("string_deref", kind, "(%s)[%d]" % (expr, i), "print(at(%s, %s))" % (expr, nev_int(i)),
+                       [str(ord(w[i]))] if ok else [E_OOB], "HT %s | %d" % (wchars, i), smap))
+        for a in (-1, 0, 1, 2):
+            for b in (-1, 0, 1, 2):
+                ok = 0 <= a < len(w) and 0 <= b < len(w)
+                sub_ = "".join(w[x] for x in rpositions(a, b)) if ok else None
+                kind = ("empty-string" if not w else "one-char-string" if len(w) == 1 else "short-string") + ":" + (
+                    "in-range" if ok else "negative-bound" if a < 0 or b < 0 else "bound-ge-length")
+
+                def sm2(ans):
+                    t = ans.split()
+                    if t[0] != "ok":
+                        return [E_OOB]
+                    q = "".join(chr(int(x)) for x in t[1:])
+                    return [q, str(len(q))]
+                p.add(Call("string_slice", kind, "(%s)[%d..%d]" % (expr, a, b), "print(sl(%s, %s))" % (expr, args([a, b])),
+                           [sub_, str(len(sub_))] if ok else [E_OOB], ("HU %s | %d %d" % (wchars, a, b)).replace("  ", " "), sm2))
+    progs.append(p)
+
+    # ---- the names of the bounds of slice and range parameters (seed C02-15: ID_DIM_SLICE read the vector at
+    #      dim/2, dim/2+1 instead of dim-1, dim -- invisible in one dimension).  A slice parameter
+    #      s[n0 .. n1, n2 .. n3]: lower names are 0, upper names the last valid index of the dimension; a range
+    #      parameter: the bounds themselves.  Same fixed generator: all direction combinations, distinct bounds.
+    EXN = {1: (9,), 2: E2, 3: E3}
+    decl = ""
+    for dims in (1, 2, 3):
+        nm = ["n%d" % k for k in range(2 * dims)]
+        plist = ", ".join("%s .. %s" % (nm[2 * d], nm[2 * d + 1]) for d in range(dims))
+        prn = "".join("    print(%s);\n" % x for x in nm)
+        decl += "func sn%d(s[%s] : int) -> int\n{\n%s    0\n}\n" % (dims, plist, prn)
+        decl += "func rn%d(r[%s] : range) -> int\n{\n%s    0\n}\n" % (dims, plist, prn)
+        # the names used from a nested function (free variables of a closure)
+        decl += ("func sc%d(s[%s] : int) -> int\n{\n    let f = let func g() -> int\n    {\n%s        0\n    };\n    f()\n}\n"
+                 % (dims, plist, prn.replace("    print", "        print")))
+        decl += ("func rc%d(r[%s] : range) -> int\n{\n    let f = let func g() -> int\n    {\n%s        0\n    };\n    f()\n}\n"
+                 % (dims, plist, prn.replace("    print", "        print")))
+        for nlev in (1, 2):
+            sig = ", ".join(n + " : int" for n in nd_params(nlev, dims))
+            for fn in ("sn", "sc"):
+                decl += "func %s%d_%d(%s) -> int\n{\n    let a = %s;\n    %s%d(a%s)\n}\n%s" % (
+                    fn, dims, nlev, sig, literal(EXN[dims]), fn, dims, nd_ranges_expr(nlev, dims), CATCH)
+            for fn in ("rn", "rc"):
+                decl += "func %s%d_%d(%s) -> int\n{\n    %s%d(%s)\n}\n%s" % (
+                    fn, dims, nlev, sig, fn, dims, nd_ranges_expr(nlev, dims), CATCH)
+    p = Program("dim_names", decl, stack=4000)
+    for dims in (1, 2, 3):
+        for nlev in (1, 2):
+            combos = list(nd_combos(nlev, dims))
+            combos += [[[extra.random() < 0.5 for _ in range(dims)] for _ in range(nlev)] for _ in range(6 if thorough else 2)]
+            for ci, dirs in enumerate(combos):
+                levels = nd_levels(base if ci < 2 ** (nlev * dims) else extra, EXN[dims], nlev, dirs)
+                last = levels[-1]
+                comp = []
+                for d in range(dims):
+                    lo = [0, rlen(*last[d]) - 1]
+                    c = []
+                    for x in lo:
+                        for lv in reversed(levels):
+                            x = rnth(lv[d][0], lv[d][1], x)
+                        c.append(x)
+                    comp.append(tuple(c))
+                exp_s = [y for d in range(dims) for y in ("0", str(rlen(*last[d]) - 1))] + ["0"]
+                exp_r = [str(y) for d in range(dims) for y in comp[d]] + ["0"]
+                rtxt = "".join("[" + ", ".join("%d..%d" % pr_ for pr_ in lv) + "]" for lv in levels)
+                groups = " | ".join(" ".join(str(x) for pr_ in lv for x in pr_) for lv in levels)
+                fns = ("sn", "rn") if (ci % 3) else ("sn", "rn", "sc", "rc")
+                for fn in fns:
+                    isr = fn[0] == "r"
+                    p.add(Call("slice_dim_name" if not isr else "range_dim_name",
+                               "%dd-%dlev%s" % (dims, nlev, "-closure" if fn[1] == "c" else ""),
+                               "bound names of %s%s%s" % ("" if isr else "a%s" % list(EXN[dims]), rtxt,
+                                                           " in a nested function" if fn[1] == "c" else ""),
+                               "print(%s%d_%d(%s))" % (fn, dims, nlev, args(flat_levels(levels))),
+                               exp_r if isr else exp_s, ("HDR " if isr else "HDS ") + groups,
+                               lambda ans: ans.split()[1:] + ["0"] if ans.startswith("ok") else [E_OOB]))
     progs.append(p)
 
     # ---- use after iteration: iterating a range / slice / array must not change what it denotes -----
